@@ -118,4 +118,28 @@ theorem sphFt_nonneg (p f R k : ℝ) (hp : 0 ≤ p) (hf0 : 0 ≤ f) (hf1 : f ≤
   simp only [Micro.sphFt, Micro.cube_eq]
   positivity
 
+/-! ### the 1-2 frame -/
+
+theorem clip1_id {x : ℝ} (h1 : -1 ≤ x) (h2 : x ≤ 1) : clip1 x = x := by
+  unfold clip1
+  have a : ¬ x < -1.0 := by norm_num; linarith
+  have b : ¬ (1.0 : ℝ) < x := by norm_num; linarith
+  simp only [a, b, if_false]
+
+/-- in a loss-free effective medium `|√ε| = Re √ε` -/
+theorem cabs_csq_of_im_zero (e : Cx ℝ) (he : (csq e).im = 0) : cabs (csq e) = (csq e).re := by
+  unfold cabs Cx.abs2
+  rw [he, mul_zero, add_zero]
+  exact Real.sqrt_mul_self (csq_re_nonneg e)
+
+theorem sinOf_one : sinOf (1 : ℝ) = 0 := by simp [sinOf]
+
+/-- incident direction on the polar axis, azimuth 0: `sin(Θ/2) = √((1−μ)/2)` -/
+theorem sinHalf_polar {μ : ℝ} (h1 : -1 ≤ μ) (h2 : μ ≤ 1) : sinHalf μ 1 0 = Real.sqrt ((1.0 - μ) / 2.0) := by
+  unfold sinHalf
+  rw [sinOf_one]
+  simp only [transc_cos_real, Real.cos_zero, mul_one, mul_zero, add_zero, transc_sqrt_real]
+  rw [clip1_id h1 h2]
+  congr 1; norm_num; ring
+
 end Smrt.Em
